@@ -640,6 +640,17 @@ impl<T: Config> UdpProtocol<T> {
             return;
         }
 
+        // An input packet is validated as a whole before any part of it is acted upon: a packet
+        // that is going to be discarded must not count as a sign of life, acknowledge anything
+        // or report anybody as disconnected.
+        let decoded_input = match &msg.body {
+            MessageBody::Input(body) => match self.decode_input(body) {
+                Ok(decoded) => decoded,
+                Err(()) => return,
+            },
+            _ => None,
+        };
+
         // update time when we last received packages
         self.last_recv_time = Instant::now();
 
@@ -654,7 +665,7 @@ impl<T: Config> UdpProtocol<T> {
         match &msg.body {
             MessageBody::SyncRequest(body) => self.on_sync_request(*body),
             MessageBody::SyncReply(body) => self.on_sync_reply(msg.header, *body),
-            MessageBody::Input(body) => self.on_input(body),
+            MessageBody::Input(body) => self.on_input(body, decoded_input),
             MessageBody::InputAck(body) => self.on_input_ack(*body),
             MessageBody::QualityReport(body) => self.on_quality_report(body),
             MessageBody::QualityReply(body) => self.on_quality_reply(body),
@@ -702,14 +713,21 @@ impl<T: Config> UdpProtocol<T> {
         }
     }
 
-    fn on_input(&mut self, body: &Input) {
+    /// Checks an `Input` packet completely without changing anything. `Err` means the packet is
+    /// malformed and has to be discarded; `Ok(None)` that it is well-formed but encoded against a
+    /// frame we no longer hold; otherwise every frame it carries, decoded and split per player.
+    #[allow(clippy::type_complexity)]
+    fn decode_input(
+        &self,
+        body: &Input,
+    ) -> Result<Option<Vec<(InputBytes, Vec<PlayerInput<T::Input>>)>>, ()> {
         if !body.disconnect_requested && body.peer_connect_status.len() != self.num_players {
             warn!(
                 "Discarding input packet with {} connection statuses; expected {}",
                 body.peer_connect_status.len(),
                 self.num_players
             );
-            return;
+            return Err(());
         }
 
         if body.start_frame < 0 {
@@ -717,8 +735,70 @@ impl<T: Config> UdpProtocol<T> {
                 "Discarding input packet with invalid start frame {}",
                 body.start_frame
             );
-            return;
+            return Err(());
         }
+
+        // if we did not receive any input yet, we decode with the blank input,
+        // otherwise we use the input previous to the start of the encoded inputs
+        let decode_frame = if self.last_recv_frame() == NULL_FRAME {
+            NULL_FRAME
+        } else {
+            body.start_frame - 1
+        };
+
+        // if we do not have the necessary input saved, we cannot look inside
+        let Some(decode_inp) = self.recv_inputs.get(&decode_frame) else {
+            return Ok(None);
+        };
+
+        let recv_inputs = match decode(&decode_inp.bytes, &body.bytes) {
+            Ok(inputs) => inputs,
+            Err(e) => {
+                warn!("Failed to decode input packet, discarding: {e}");
+                return Err(());
+            }
+        };
+
+        let mut decoded = Vec::with_capacity(recv_inputs.len());
+        for (i, inp) in recv_inputs.into_iter().enumerate() {
+            let Some(inp_frame) = i32::try_from(i)
+                .ok()
+                .and_then(|i| body.start_frame.checked_add(i))
+            else {
+                warn!("Discarding input packet whose frames exceed the frame range");
+                return Err(());
+            };
+            let input_data = InputBytes {
+                frame: inp_frame,
+                bytes: inp,
+            };
+            match input_data.to_player_inputs::<T>(self.handles.len()) {
+                Ok(player_inputs) => decoded.push((input_data, player_inputs)),
+                Err(e) => {
+                    warn!("Discarding input packet for frame {inp_frame}: {e}");
+                    return Err(());
+                }
+            }
+        }
+        Ok(Some(decoded))
+    }
+
+    /// Acts on an `Input` packet that `decode_input` has accepted.
+    #[allow(clippy::type_complexity)]
+    fn on_input(
+        &mut self,
+        body: &Input,
+        decoded: Option<Vec<(InputBytes, Vec<PlayerInput<T::Input>>)>>,
+    ) {
+        let Some(decoded) = decoded else {
+            // We no longer hold the frame this packet is encoded against, so we cannot decode
+            // it - and cannot tell whether it is well-formed, so nothing it says is acted upon.
+            // Still acknowledge what we have: the sender then drops everything up to that
+            // frame and encodes its next packet against a frame we do hold. Without this, one
+            // lost ack could leave the sender retransmitting from a pruned reference forever.
+            self.send_input_ack();
+            return;
+        };
 
         // drop pending outputs until the ack frame
         self.pop_pending_output(body.ack_frame);
@@ -742,69 +822,32 @@ impl<T: Config> UdpProtocol<T> {
             }
         }
 
-        // if we did not receive any input yet, we decode with the blank input,
-        // otherwise we use the input previous to the start of the encoded inputs
-        let decode_frame = if self.last_recv_frame() == NULL_FRAME {
-            NULL_FRAME
-        } else {
-            body.start_frame - 1
-        };
+        self.running_last_input_recv = Instant::now();
 
-        // if we have the necessary input saved, we decode
-        if let Some(decode_inp) = self.recv_inputs.get(&decode_frame) {
-            self.running_last_input_recv = Instant::now();
-
-            let recv_inputs = match decode(&decode_inp.bytes, &body.bytes) {
-                Ok(inputs) => inputs,
-                Err(e) => {
-                    warn!("Failed to decode input packet, discarding: {e}");
-                    return;
-                }
-            };
-
-            for (i, inp) in recv_inputs.into_iter().enumerate() {
-                let inp_frame = body.start_frame + i as i32;
-                // skip inputs that we don't need
-                if inp_frame <= self.last_recv_frame() {
-                    continue;
-                }
-
-                let input_data = InputBytes {
-                    frame: inp_frame,
-                    bytes: inp,
-                };
-                // send the input to the session
-                let player_inputs = match input_data.to_player_inputs::<T>(self.handles.len()) {
-                    Ok(inputs) => inputs,
-                    Err(e) => {
-                        warn!("Discarding input packet for frame {inp_frame}: {e}");
-                        return;
-                    }
-                };
-                self.recv_inputs.insert(input_data.frame, input_data);
-
-                for (i, player_input) in player_inputs.into_iter().enumerate() {
-                    self.event_queue.push_back(Event::Input {
-                        input: player_input,
-                        player: self.handles[i],
-                    });
-                }
+        for (input_data, player_inputs) in decoded {
+            // skip inputs that we don't need
+            if input_data.frame <= self.last_recv_frame() {
+                continue;
             }
 
-            // send an input ack
-            self.send_input_ack();
+            // send the input to the session
+            self.recv_inputs.insert(input_data.frame, input_data);
 
-            // delete received inputs that are too old
-            let last_recv_frame = self.last_recv_frame();
-            self.recv_inputs
-                .retain(|&k, _| k >= last_recv_frame - 2 * self.max_prediction as i32);
-        } else {
-            // We no longer hold the frame this packet is encoded against, so we cannot decode
-            // it. Still acknowledge what we have: the sender then drops everything up to that
-            // frame and encodes its next packet against a frame we do hold. Without this, one
-            // lost ack could leave the sender retransmitting from a pruned reference forever.
-            self.send_input_ack();
+            for (i, player_input) in player_inputs.into_iter().enumerate() {
+                self.event_queue.push_back(Event::Input {
+                    input: player_input,
+                    player: self.handles[i],
+                });
+            }
         }
+
+        // send an input ack
+        self.send_input_ack();
+
+        // delete received inputs that are too old
+        let last_recv_frame = self.last_recv_frame();
+        self.recv_inputs
+            .retain(|&k, _| k >= last_recv_frame - 2 * self.max_prediction as i32);
     }
 
     /// Upon receiving a `InputAck`, discard the oldest buffered input including the acked input.
